@@ -366,6 +366,22 @@ def run(ctx):
                     ctx.ok("C01-R3", "the short-target fallback returns one frame for each of the len(duration_params) states", flb.loc())
                 else:
                     ctx.fail("C01-R3", flb.path, "fallback length", "the fallback returns vec![%s; %s]: the duration vector must have one entry (>= 1) per state, i.e. len(duration_params) entries, or trailing states and labels are silently dropped" % (show(e[2][0]), show(e[2][1])[:60]), flb.loc())
+    # the frame budget of an aligned group may come out negative (a label that ends before the
+    # frames already produced): it is a float difference, which the estimator then floors - an
+    # unsigned subtraction here would wrap or panic on exactly those inputs
+    cwa_ = p.body(DE + "create_with_alignment")
+    if cwa_ is not None:
+        nsub = 0
+        for s_ in ledger.enumerate_sites(p, [cwa_.path] + [c_.path for c_ in p.nested(cwa_.path)]):
+            if s_.kind == "overflow" and (s_.extra.get("op") == "Sub" or s_.detail.startswith("Sub(")):
+                r_ = ledger.t1_common(s_)
+                if r_:
+                    ctx.ok("C01-R3", "create_with_alignment: `%s` cannot wrap (%s)" % (s_.detail[:50], r_), s_.loc())
+                else:
+                    nsub += 1
+                    ctx.fail("C01-R3", s_.fn, "unsigned frame budget", "create_with_alignment subtracts unsigned quantities (`%s`): a label that ends before the frames already produced makes this wrap / panic instead of falling back to one frame per state" % s_.detail[:120], s_.loc())
+        if not nsub:
+            ctx.ok("C01-R3", "create_with_alignment has no unsigned subtraction that could wrap (the remaining-frames budget is a float difference)", cwa_.loc())
     for fn in (DE + "create", DE + "create_with_alignment"):
         b = p.body(fn)
         if b is None:
@@ -721,7 +737,7 @@ FDIV_T2F = [
      "a duration variance (of one state, or summed over the group); ASSUMPTION (voice-format fact): duration variances of a voice are positive"),
     ("label::Labels::load_from_strings", r"^Mul\(\(fperiod as f64\), 10000000\.0\)$",
      "fperiod >= 1 (C20-R1), so the divisor is >= 1e7"),
-    ("mlpg_adjust::mlpg::MlpgGlobalVariance::<'a>::next_step", r"^Sub\(Mul\(Mul\(Neg\(1\.0\{W1\}\)",
+    ("mlpg_adjust::mlpg::MlpgGlobalVariance::<'a>::next_step", r"^Sub\(.*self\.mtx\.wuw\[.*\]\[0\]",
      "quasi-Newton step size 1/h: h is a sum of data-dependent terms, zero only by exact cancellation - numerical, not `out of nothing` (not decided)"),
     ("mlpg_adjust::mlpg::MlpgMatrix::ldl_factorization", r"^(self\.wuw\[.*\]|core::slice::<impl \[T\]>::split_at_mut\(self\.wuw, .*\)\.1\[0\])\[0\]$",
      "the pivot D[t] of the LDL^T factorisation of W'U^-1 W: positive when every frame's static precision is positive (ASSUMPTION, voice-format fact: static variances are finite and positive; masked dynamic rows only add non-negative terms); its staying positive under rounding is numerical (not decided)"),
